@@ -749,7 +749,7 @@ i_mep crossover(const i_mep &lhs, const i_mep &rhs)
     {
     const auto i_sup(from.size());
     const auto c_sup(from.categories());
-    const auto cut(random::between<index_t>(1, i_sup - 1));
+    const index_t cut(i_sup > 2 ? random::between<index_t>(1, i_sup - 1) : 1);
 
     for (index_t i(cut); i < i_sup; ++i)
       for (category_t c(0); c < c_sup; ++c)
